@@ -183,6 +183,10 @@ def main():
       cases = cases[: args.limit]
   ids = [c["id"] for c in cases]
   assert len(ids) == len(set(ids)), "case ids must be unique"
+  from mon import worker as _worker
+
+  for _mode in sorted({c.get("mode", "release") for c in cases} | ({"release"} if pid == "C36" else set())):
+    _worker.prepare_cache(_mode)
   budget = getattr(mod, "BUDGET", {"quick": 240, "thorough": 2400})[tier]
   hard = budget * 3 + 300
   results, crashes, notes = run_workers(pid, cases, args.workers, budget, workdir, hard)
